@@ -21,6 +21,7 @@ import (
 	"os"
 	"os/exec"
 	"path/filepath"
+	"runtime/pprof"
 	"sort"
 	"strings"
 	"sync"
@@ -132,6 +133,7 @@ type Obs struct {
 	Pend   int       `json:"pend"`
 	Launch []int     `json:"launch"`
 	Note   string    `json:"note,omitempty"`
+	stg    []int
 }
 
 type Result struct {
@@ -139,8 +141,13 @@ type Result struct {
 	// oracle values read off the run: index of a create/finish request -> 5 when the DEPLOY transition
 	// timed out although the specification lets every task report in (lost status notification)
 	Fail map[int]int `json:"fail,omitempty"`
-	Err  string `json:"err,omitempty"`
-	Hung bool   `json:"hung,omitempty"`
+	// index of a create/finish request -> role numbers whose task was launched and scripted to report
+	// running, but whose TASK_RUNNING had not been processed by the core when the creation gave up
+	// (machine under load): for the model these tasks were still staging
+	Stg map[int][]int `json:"stg,omitempty"`
+	Err    string `json:"err,omitempty"`
+	Hung   bool   `json:"hung,omitempty"`
+	HungOp string `json:"hung_op,omitempty"` // kind of the request that did not return
 }
 
 // ---------------------------------------------------------------- Coq printing
@@ -239,6 +246,16 @@ func caseTerm(h History, r Result) string {
 			sp.Fail = f
 			o.Spec = &sp
 		}
+		if st, ok := r.Stg[i]; ok && o.Spec != nil {
+			sp := *o.Spec
+			sp.Roles = append([]Role(nil), o.Spec.Roles...)
+			for _, j := range st {
+				if j < len(sp.Roles) && sp.Roles[j].Launch == 0 {
+					sp.Roles[j].Launch = 2
+				}
+			}
+			o.Spec = &sp
+		}
 		ops[i] = opTerm(o)
 	}
 	obs := make([]string, len(r.Obs))
@@ -286,7 +303,7 @@ func workflowYAML(name string, e int, s *Spec, gated bool) string {
 	for i, h := range s.Hosts {
 		hosts[i] = `"` + hostName(h) + `"`
 	}
-	fmt.Fprintf(&b, "name: %s\ndefaults:\n  deploy_timeout: 2s\n  hosts: '[%s]'\n", name, strings.Join(hosts, ","))
+	fmt.Fprintf(&b, "name: %s\ndefaults:\n  deploy_timeout: 3s\n  hosts: '[%s]'\n", name, strings.Join(hosts, ","))
 	if gated {
 		fmt.Fprintf(&b, "vars:\n  gate: '{{ vgate.Gate(\"g%d\") }}'\n", e)
 	}
@@ -401,6 +418,7 @@ type child struct {
 	seenCall int
 	seenEv   int
 	pending  map[int]chan createRes // gated creations in flight
+	active   map[int]bool           // task key -> the core processed its TASK_RUNNING (status ACTIVE seen)
 }
 
 type createRes struct {
@@ -420,6 +438,31 @@ func lostDeploy(s *Spec, err error) bool {
 		}
 	}
 	return true
+}
+
+// notYetActive: after a creation that failed, the roles scripted to report running whose task was
+// launched but whose TASK_RUNNING the core had not processed (observed by the launch controller,
+// independently of what the clean-up then did with them)
+func (c *child) notYetActive(e int, s *Spec, err error, launchedKeys []int, commanded []int) []int {
+	if err == nil || s == nil {
+		return nil
+	}
+	was := map[int]bool{}
+	for _, k := range launchedKeys {
+		was[k] = true
+	}
+	var out []int
+	c.mu.Lock()
+	defer c.mu.Unlock()
+	for _, k := range commanded {
+		c.active[k] = true // CONFIGURE is sent only after DEPLOY saw every role ACTIVE
+	}
+	for j, r := range s.Roles {
+		if (r.Kind == KPlain || r.Kind == KHookTask) && r.Launch == 0 && was[tidOf(e, j)] && !c.active[tidOf(e, j)] {
+			out = append(out, j)
+		}
+	}
+	return out
 }
 
 func stateCode(s string) int {
@@ -516,12 +559,24 @@ func (c *child) onLaunch(ti mesos.TaskInfo) string {
 			}
 			return false
 		}
-		if !simcore.WaitFor(1500*time.Millisecond, inRoster) {
+		if !simcore.WaitFor(12*time.Second, inRoster) {
 			return // never entered the roster (deployment attempt abandoned)
 		}
 		switch mode {
 		case 0:
 			c.s.SetTaskRunning(tid)
+			if simcore.WaitFor(10*time.Second, func() bool {
+				for _, t := range c.s.Taskman.VerifRoster() {
+					if t.TaskId == tid {
+						return t.Status == "ACTIVE"
+					}
+				}
+				return false
+			}) {
+				c.mu.Lock()
+				c.active[tidOf(e, i)] = true
+				c.mu.Unlock()
+			}
 		case 1:
 			// wait until the tasks of this environment that report running have done so
 			simcore.WaitFor(1000*time.Millisecond, func() bool {
@@ -534,6 +589,9 @@ func (c *child) onLaunch(ti mesos.TaskInfo) string {
 				for _, t := range c.s.Taskman.VerifRoster() {
 					c.mu.Lock()
 					l := c.byTid[t.TaskId]
+					if l != nil && t.Status == "ACTIVE" {
+						c.active[l.key] = true
+					}
 					c.mu.Unlock()
 					if l != nil && want[l.key] && t.Status == "ACTIVE" {
 						delete(want, l.key)
@@ -654,14 +712,14 @@ func (c *child) settle() {
 		cur := string(b)
 		if cur == last && agree {
 			stable++
-			if stable >= 3 {
+			if stable >= 4 {
 				return
 			}
 		} else {
 			stable = 0
 		}
 		last = cur
-		time.Sleep(4 * time.Millisecond)
+		time.Sleep(6 * time.Millisecond)
 	}
 }
 
@@ -845,6 +903,7 @@ func (c *child) runOp(o Op) Obs {
 		if lostDeploy(o.Spec, res.err) {
 			ob.Note = "lost-deploy"
 		}
+		ob.stg = c.notYetActive(o.E, o.Spec, res.err, ob.Launch, ob.Cmds)
 		return ob
 	case "snap":
 		// the creation is started now and held at template-processing time
@@ -883,6 +942,7 @@ func (c *child) runOp(o Op) Obs {
 		if lostDeploy(o.Spec, res.err) {
 			ob.Note = "lost-deploy"
 		}
+		ob.stg = c.notYetActive(o.E, o.Spec, res.err, ob.Launch, ob.Cmds)
 		return ob
 	case "control":
 		if o.Fail {
@@ -951,10 +1011,12 @@ func (c *child) runOp(o Op) Obs {
 		c.mu.Unlock()
 		if tid != "" {
 			c.s.FailTask(tid, mesos.TASK_FAILED)
-			simcore.WaitFor(500*time.Millisecond, func() bool {
+			simcore.WaitFor(3*time.Second, func() bool {
 				for _, t := range c.s.Taskman.VerifRoster() {
 					if t.TaskId == tid {
-						return t.Status != "ACTIVE"
+						// the status update and, for a locked task, the ERROR state are written by
+						// separate goroutines of the core: wait for both
+						return t.Status != "ACTIVE" && (!t.Locked || t.State == "ERROR")
 					}
 				}
 				return true
@@ -1001,7 +1063,7 @@ func runChild(workDir string) {
 	}
 	c := &child{s: s, rec: rec, g: g, ctx: context.Background(), hist: h,
 		specs: map[int]*Spec{}, envIds: map[int]string{}, envIdx: map[string]int{}, envPtr: map[int]*environment.Environment{},
-		byTid: map[string]*launched{}, failCmd: map[string]bool{}, cfgErr: map[string]bool{}, pending: map[int]chan createRes{}}
+		byTid: map[string]*launched{}, failCmd: map[string]bool{}, cfgErr: map[string]bool{}, pending: map[int]chan createRes{}, active: map[int]bool{}}
 	s.Beh.Launch = c.onLaunch
 	s.Beh.Command = func(taskId, cls, event string) simcore.CmdOutcome {
 		c.mu.Lock()
@@ -1044,6 +1106,12 @@ func runChild(workDir string) {
 				}
 				res.Fail[i] = 5
 			}
+			if len(ob.stg) > 0 {
+				if res.Stg == nil {
+					res.Stg = map[int][]int{}
+				}
+				res.Stg[i] = ob.stg
+			}
 			res.Obs = append(res.Obs, ob)
 			rmu.Unlock()
 		case <-time.After(15 * time.Second):
@@ -1051,8 +1119,12 @@ func runChild(workDir string) {
 			// acknowledgement that was dropped, KillTasks waiting for a kill acknowledgement)
 			rmu.Lock()
 			res.Hung = true
+			res.HungOp = o.K
 			res.Err = fmt.Sprintf("request %d (%s) did not return within 15s", i, o.K)
 			rmu.Unlock()
+			if os.Getenv("H04_KEEPLOG") != "" {
+				pprof.Lookup("goroutine").WriteTo(os.Stderr, 1)
+			}
 			finish()
 		}
 	}
@@ -1089,6 +1161,9 @@ func runHistory(h History, slot int, prop string, idx int) Result {
 		// the result is the last line of stdout (the core may print before it)
 		lines := strings.Split(strings.TrimSpace(out.String()), "\n")
 		if len(lines) > 0 && json.Unmarshal([]byte(lines[len(lines)-1]), &r) == nil {
+			if d := os.Getenv("H04_KEEPLOG"); d != "" && r.Hung {
+				os.WriteFile(filepath.Join(d, fmt.Sprintf("hung_%04d_%d.log", idx, time.Now().UnixNano())), errb.Bytes(), 0o644)
+			}
 			return r
 		}
 		msg := "child failed"
@@ -1155,9 +1230,11 @@ func main() {
 				if !results[i].Hung && results[i].Err == "" {
 					break
 				}
-				if results[i].Hung && *prop == "C06" {
-					// a request that does not return is what C06 forbids (monitor code 9): keep the
-					// observation as it is, no second chance
+				if results[i].Hung && results[i].HungOp == "destroy" && *prop == "C06" {
+					// a destroy request that does not return is what C06 forbids (monitor code 9): keep
+					// the observation as it is, no second chance.  (A creation can also stall before
+					// anything of C06 is involved — a deployment request whose resource-offer verdict
+					// never arrives keeps deployMu — so those are re-run.)
 					rmu.Lock()
 					hangs = append(hangs, fmt.Sprintf("history %d: %s", i, results[i].Err))
 					rmu.Unlock()
